@@ -314,9 +314,9 @@ var ssOpenAttrs = regexp.MustCompile(`(?m)^((?:Filewrite|OpenFile) .*) attrs=[0-
 func ssEffectState(st string) string { return ssOpenAttrs.ReplaceAllString(st, "$1") }
 
 // ssRunCanon runs the canonical frames (one at a time, each reply read), then rest and EOF, on a fresh
-// server of the same configuration; it returns the replies and the final state.
-func ssRunCanon(cfg ssCfg, root string, frames [][]byte, rest []byte, res *ssResult) (reps []wire.Pkt, state string, ok bool) {
-	s, err := ssOpen(cfg, root)
+// server of the same configuration and transport (tr: "" or "split"); it returns the replies and the final state.
+func ssRunCanon(cfg ssCfg, root, tr string, frames [][]byte, rest []byte, res *ssResult) (reps []wire.Pkt, state string, ok bool) {
+	s, err := ssOpenTr(cfg, root, tr, nil)
 	if err != nil {
 		res.Findings = append(res.Findings, ssFinding{Key: "tie/server-start", What: err.Error()})
 		return nil, "", false
